@@ -9,5 +9,5 @@ case "$patch" in
   *) git apply "$patch" || exit 2;;
 esac
 git diff --stat | tail -1
-cd /verif/sim && VERIF_SCRATCH=/verif/.build VERIF_DEV=$spec GOMAXPROCS=1 timeout 900 go1.26.8 test -count=1 -v -run TestDev . 2>&1 | grep "^VIOL\|^infra\|^runs\|rror\|panic\|undefined\|FAIL" | cut -c1-260
+cd /verif/sim && VERIF_SCRATCH=/verif/.build VERIF_DEV=$spec VERIF_DEV_TIER=$VERIF_DEV_TIER GOMAXPROCS=1 timeout 900 go1.26.8 test -count=1 -v -run TestDev . 2>&1 | grep "^VIOL\|^infra\|^runs\|rror\|panic\|undefined\|FAIL" | cut -c1-260
 cd /repo && git checkout -- . 
